@@ -81,6 +81,83 @@ func UpdateList[T any](remoteWrite bool, existingData []T, newData []T, filterPa
 	return result, success
 }
 
+// RemoteFullWriteAllowed checks a remote write without filters, which replaces the whole data
+// set, against the write protection of the existing list items (eebus tag "writecheck"):
+// an item that is not changeable has to be contained unchanged in the new data, and the
+// changeability flag of a changeable item can not be altered. If the new item does not
+// carry the flag, the existing flag is taken over into the new data.
+//
+// existingData and newData are pointers to the same list data type.
+func RemoteFullWriteAllowed(existingData, newData any) bool {
+	ev := reflect.ValueOf(existingData)
+	if ev.Kind() != reflect.Ptr || ev.IsNil() || ev.Elem().Kind() != reflect.Struct {
+		return true
+	}
+	nv := reflect.ValueOf(newData)
+	if nv.Kind() != reflect.Ptr || nv.Type() != ev.Type() {
+		return true
+	}
+
+	for i := 0; i < ev.Elem().NumField(); i++ {
+		items := ev.Elem().Field(i)
+		if items.Kind() != reflect.Slice || items.Len() == 0 || items.Index(0).Kind() != reflect.Struct {
+			continue
+		}
+
+		writeCheckFields := fieldNamesWithEEBusTag(EEBusTagWriteCheck, items.Index(0).Interface())
+		if len(writeCheckFields) != 1 {
+			continue
+		}
+		flagName := writeCheckFields[0]
+		keys := fieldNamesWithEEBusTag(EEBusTagKey, items.Index(0).Interface())
+
+		var newItems reflect.Value
+		if !nv.IsNil() {
+			newItems = nv.Elem().Field(i)
+		}
+
+		for j := 0; j < items.Len(); j++ {
+			item := items.Index(j)
+
+			// find the item with the same identifiers in the new data
+			var newItem reflect.Value
+			for k := 0; len(keys) > 0 && newItems.IsValid() && k < newItems.Len(); k++ {
+				same := true
+				for _, key := range keys {
+					f1, f2 := item.FieldByName(key), newItems.Index(k).FieldByName(key)
+					if f1.IsNil() || f2.IsNil() || !reflect.DeepEqual(f1.Elem().Interface(), f2.Elem().Interface()) {
+						same = false
+						break
+					}
+				}
+				if same {
+					newItem = newItems.Index(k)
+					break
+				}
+			}
+
+			if !writeAllowed(item.Interface()) {
+				if !newItem.IsValid() || !reflect.DeepEqual(item.Interface(), newItem.Interface()) {
+					return false
+				}
+				continue
+			}
+
+			if !newItem.IsValid() {
+				continue
+			}
+			flag := newItem.FieldByName(flagName)
+			if flag.IsNil() {
+				flag.Set(item.FieldByName(flagName))
+			} else if !reflect.DeepEqual(flag.Elem().Interface(), item.FieldByName(flagName).Elem().Interface()) {
+				return false
+			}
+		}
+	}
+
+	return true
+}
+
 // return a list of field names that have the eebus tag
 func fieldNamesWithEEBusTag(tag EEBusTag, item any) []string {
 	var result []string
